@@ -142,8 +142,8 @@ func readMore(conn net.Conn, buf []byte, n int, m int) ([]byte, error) {
 	}
 
 	buf = append(buf, make([]byte, m-l)...)
-	_, err := io.ReadAtLeast(conn, buf[l:], n-l)
-	return buf, err
+	k, err := io.ReadAtLeast(conn, buf[l:], n-l)
+	return buf[:l+k], err
 }
 
 func trivial(x *big.Int) bool {
